@@ -7,11 +7,11 @@
 package main
 
 import (
+	"fmt"
+	"math"
 	"os"
 	"runtime/debug"
 	"runtime/pprof"
-	"fmt"
-	"math"
 	"sort"
 	"strconv"
 	"strings"
@@ -475,40 +475,48 @@ func strFamilies(tier string) []*core.Family {
 	for _, n := range []int64{math.MaxInt64, 1 << 31, 1 << 32, 1<<63 - 2} {
 		xs = append(xs, repx{"", n, false, ""}, repx{"a", n, false, ""}, repx{"ab", n, true, ","}, repx{"", n, true, "x"})
 	}
-	xs = append(xs, repx{"", math.MaxInt64, true, ""})
-	fams = append(fams, &core.Family{Name: "str-rep-extreme", Size: uint64(len(xs)), Serial: true, HangSeconds: 20,
-		Show: func(i uint64) string {
-			x := xs[i]
-			if !x.hasSep {
-				return fmt.Sprintf("string.rep(%q, %d) under cpu=1e7 memory=64M limits", x.s, x.n)
-			}
-			return fmt.Sprintf("string.rep(%q, %d, %q) under cpu=1e7 memory=64M limits", x.s, x.n, x.sep)
-		},
-		Run: func(i uint64) core.Outcome {
-			x := xs[i]
-			e := getEnv()
-			var c collector
-			args := []rt.Value{sv(x.s), iv(x.n)}
-			key := fmt.Sprintf("rep s=%q n=%d", x.s, x.n)
-			if x.hasSep {
-				args = append(args, sv(x.sep))
-				key += fmt.Sprintf(" sep=%q", x.sep)
-			}
-			st, res, errs := call(e.m, e.str["rep"], args, cpuMemCtx)
-			got := obsStr(st, res, errs)
-			if len(got) > 200 {
-				got = got[:200]
-			}
-			c.sig.WriteString(got)
-			if refstr19.RepLen(x.s, x.n, x.sep).Sign() == 0 {
-				if got != `ok (s:"")` {
-					c.bad(key, fmt.Sprintf("the result is the empty string (n copies of an empty string with an empty separator); observed %s", got))
+	repFam := func(name string, xs []repx, hang int) *core.Family {
+		return &core.Family{Name: name, Size: uint64(len(xs)), Serial: true, HangSeconds: hang,
+			Show: func(i uint64) string {
+				x := xs[i]
+				if !x.hasSep {
+					return fmt.Sprintf("string.rep(%q, %d) under cpu=1e7 memory=64M limits", x.s, x.n)
 				}
-			} else if st != "err" && st != "killed" {
-				c.bad(key, fmt.Sprintf("a string of %s bytes cannot be built under a 64M limit; observed %s", refstr19.RepLen(x.s, x.n, x.sep), got))
-			}
-			return c.out()
-		}})
+				return fmt.Sprintf("string.rep(%q, %d, %q) under cpu=1e7 memory=64M limits", x.s, x.n, x.sep)
+			},
+			Run: func(i uint64) core.Outcome {
+				x := xs[i]
+				e := getEnv()
+				var c collector
+				args := []rt.Value{sv(x.s), iv(x.n)}
+				key := fmt.Sprintf("rep s=%q n=%d", x.s, x.n)
+				if x.hasSep {
+					args = append(args, sv(x.sep))
+					key += fmt.Sprintf(" sep=%q", x.sep)
+				}
+				st, res, errs := call(e.m, e.str["rep"], args, cpuMemCtx)
+				got := obsStr(st, res, errs)
+				if len(got) > 200 {
+					got = got[:200]
+				}
+				c.sig.WriteString(got)
+				if refstr19.RepLen(x.s, x.n, x.sep).Sign() == 0 {
+					if got != `ok (s:"")` {
+						c.bad(key+" clause=result", fmt.Sprintf("the result is the empty string (n copies of an empty string with an empty separator); observed %s", got))
+					}
+				} else if st != "err" && st != "killed" {
+					c.bad(key+" clause=result", fmt.Sprintf("a string of %s bytes cannot be built under a 64M limit; observed %s", refstr19.RepLen(x.s, x.n, x.sep), got))
+				}
+				return c.out()
+			}}
+	}
+	fams = append(fams, repFam("str-rep-extreme", xs, 60))
+	// string.rep("", maxinteger, "") is the empty string.  golua's loop over n
+	// charges no CPU when both strings are empty, so the CPU limit cannot end
+	// it: if the implementation iterates n times the worker's hang watchdog
+	// fires (key "str-rep-empty-huge hang>10s unknown").  This is the only case
+	// of the check that relies on the watchdog.
+	fams = append(fams, repFam("str-rep-empty-huge", []repx{{"", math.MaxInt64, true, ""}}, 10))
 
 	// char
 	cv := []int64{65, 0, 255, 1, 256, -1, math.MaxInt64, math.MinInt64}
